@@ -198,13 +198,15 @@ def _directed(ctx, rep):
     from datashard import Schema, create_table
     base = scratch_dir("c13d-")
     orig = F.prune_files_by_bounds
-    fields = [{"id": 2, "name": "f", "type": "double", "required": False},
+    # a binary column (it carries no bounds) sits BETWEEN columns that do: bounds must stay with their own field ids
+    fields = [{"id": 1, "name": "i", "type": "long", "required": False},
+              {"id": 9, "name": "y", "type": "binary", "required": False},
+              {"id": 10, "name": "k", "type": "long", "required": False},
+              {"id": 2, "name": "f", "type": "double", "required": False},
               {"id": 7, "name": "g", "type": "float", "required": False},
               {"id": 3, "name": "s", "type": "string", "required": False},
               {"id": 5, "name": "t", "type": "timestamp", "required": False},
-              {"id": 4, "name": "d", "type": "date", "required": False},
-              {"id": 1, "name": "i", "type": "long", "required": False},
-              {"id": 9, "name": "y", "type": "binary", "required": False}]
+              {"id": 4, "name": "d", "type": "date", "required": False}]
     L = "customer-0123456789"
     T0 = dt.datetime(2020, 1, 1, 12, 0, 0)
     cases = [
@@ -230,6 +232,16 @@ def _directed(ctx, rep):
         ([{"f": 1.0, "g": 0.1}], "g", "in", [0.1]),                              # float32 narrowing of IN literals
         ([{"f": 1.0, "g": 0.1}], "g", "==", 0.1),
         ([{"f": 2.0, "g": NAN}, {"f": 2.0, "g": 0.5}], "g", "!=", 0.5),
+        # columns after the binary one, with value ranges far apart
+        ([{"k": 1, "f": 500.0, "y": b"a"}, {"k": 2, "f": 600.0, "y": b"b"}], "f", ">=", 100.0),
+        ([{"k": 1, "f": 500.0, "y": b"a"}, {"k": 2, "f": 600.0, "y": b"b"}], "f", "==", 600.0),
+        ([{"i": 7, "k": 250, "y": b"a"}, {"i": 8, "k": 300, "y": None}], "k", "between", (200, 260)),
+        ([{"i": 7, "k": 250, "f": 1.0}, {"i": 8, "k": 300, "f": 2.0}], "k", "in", [300]),
+        # strings longer than any bound truncation whose deciding character lies outside the Basic Multilingual Plane
+        ([{"s": "x" * 16 + "\U0001F600a"}, {"s": "x" * 16 + "\U0001F600z"}], "s", "==", "x" * 16 + "\U0001F600z"),
+        ([{"s": "x" * 16 + "\U0001F600a"}, {"s": "x" * 16 + "\U0001F600z"}], "s", ">=", "x" * 16 + "\U0001F600m"),
+        ([{"s": "y" * 16 + "\U00020000"}, {"s": "y" * 3}], "s", "in", ["y" * 16 + "\U00020000"]),
+        ([{"s": "z" * 40}, {"s": "z" * 16 + "\uffff\uffffq"}], "s", ">", "z" * 16 + "\uffff"),
         # a 32-bit float column STORES the nearest float32 (0.1 -> 0.10000000149…, 0.7 -> 0.69999998807…): bounds must describe what is
         # stored, not what was handed in
         ([{"g": 0.1}], "g", ">", 0.1),
